@@ -307,18 +307,35 @@ def rollback_rule(rep, u):
             continue
         stores = []
         for pos, root, x, ps in fn.nodes():
-            if x.get("k") == "bin" and x["op"] == "=" and core.strip_casts(x["x"]).get("k") == "mem" and core.strip_casts(x["x"]).get("f") == "state":
+            if x.get("k") == "bin" and x["op"] == "=" and core.strip_casts(x["x"]).get("k") == "mem" and core.strip_casts(x["x"]).get("f") in ("state", "created"):
                 stores.append((pos, x))
         fails = [pos for pos, r in fn.returns() if const_val(r.get("e")) not in (None, 0)]
+        # `if (0 != error) { ...; return (error); }`: a returned status variable on the true edge of its own non-zero test
+        for pos, r in fn.returns():
+            e = core.strip_casts(r.get("e")) if r.get("e") is not None else None
+            if e is None or e.get("k") != "ref" or const_val(e) is not None:
+                continue
+            for q in fn.reachable_blocks():
+                cq = fn.blocks[q].cond
+                if cq is None or not fn.blocks[q].succ or fn.blocks[q].succ[0] is None:
+                    continue
+                t = fn.blocks[q].succ[0]
+                if not (t == pos[0] or fn.dominates(t, pos[0])) or len(fn.blocks[q].succ) < 2 or fn.blocks[q].succ[1] == t:
+                    continue
+                cc = core.strip_casts(cq)
+                if cc.get("k") == "bin" and cc["op"] == "!=" and {const_val(cc["x"]), const_val(cc["y"])} & {0} and \
+                        any(core.strip_casts(cc[s_]).get("k") == "ref" and core.strip_casts(cc[s_]).get("id") == e.get("id") for s_ in ("x", "y")):
+                    fails.append(pos)
+                    break
         for pos, x in stores:
-            if const_val(x["y"]) == states["STOP"]:
+            if const_val(x["y"]) == (states["STOP"] if core.strip_casts(x["x"]).get("f") == "state" else 0):
                 continue
             n += 1
             rep.functions.add(fn.name)
             # blocks that re-store the field or tear the object down stop the search
             stop = set()
             for p2, x2 in stores:
-                if p2 != pos:
+                if p2 != pos and core.strip_casts(x2["x"]).get("f") == core.strip_casts(x["x"]).get("f"):
                     stop.add(p2)
             for p2, r2, c, _ in fn.calls({"tp_destroy", "tp_thread_dettach", "tpt_data_uninit"}):
                 stop.add(p2)
